@@ -113,10 +113,12 @@ def run(ctx):
         elif f[0] == "EVALS":
             ctx.cov["evaluations"] += int(f[1])
             ctx.notes["search_evaluations"] = int(f[1])
+    unknown = 0
     for f in fails:
-        ctx.failing_input(f[1], f[2], f[3], f[4])
+        if ctx.failing_input(f[1], f[2], f[3], f[4]):
+            unknown += 1
     ctx.log("search: %d failing inputs (%d signatures)" % (len(fails), len(set((f[1], f[2]) for f in fails))))
-    if mism and not fails:
+    if mism and not unknown:   # failing inputs that are KNOWN findings do not explain a model/implementation mismatch
         by_id = {}
         for l in lines:
             p = l.split("\t")
